@@ -182,7 +182,7 @@ def check_run(r, cfg):
                 raise V_(R + "._collect_orders_from_normal_agents", "C09 every normal agent is consulted at most once per step", (t, dict(per_agent)))
         # caps: per step, normal agents are consulted only while fewer than maxNormalOrders of them have produced orders; after each
         # producing normal agent, high-frequency agents are consulted only while fewer than maxHighFrequencyOrders of them have produced
-        cap_n, cap_h = ses.max_normal_orders, ses.max_high_frequency_orders
+        cap_n, cap_h = conf.get("maxNormalOrders", ses.max_normal_orders), conf.get("maxHighFrequencyOrders", ses.max_high_frequency_orders)      # the CONFIGURED caps
         n_hft = len(s.high_frequency_agents)
         always = ses.high_frequency_submission_rate >= 1.0
 
